@@ -247,6 +247,12 @@ func (c *Ctx) contractCall(fr *Frame, st *State, site ssa.Instruction, fn *ssa.F
 		c.assume(g.Term)
 	}
 	c.atCallAsserts(fr, st, site, fn, env)
+	if con.Fd == "entry" && c.topFrame != nil && c.topFrame.con != nil && c.topFrame.con.Fd != "" {
+		// an entry point captures the program counter of ITS caller as the user's statement: called from
+		// inside the library (from a function that itself tracks its distance from the user's statement) it
+		// would attribute the record to library code
+		c.oblige("pre", fmt.Sprintf("%s#call[%s].pre[fd]", caller, callee), "C14.fd", []string{"C14"}, eq(fd, "0"), site.Pos(), "an entry point is called from user code only (fd == 0)")
+	}
 	if con.Fd != "" && con.Fd != "entry" {
 		// the callee assumes a fixed distance from the user's call statement
 		c.oblige("pre", fmt.Sprintf("%s#call[%s].pre[fd]", caller, callee), "C14.fd", []string{"C14"}, eq(fd, con.Fd), site.Pos(), "fd == "+con.Fd)
